@@ -54,7 +54,8 @@ def run(chk):
     cpath = os.path.join(wd, "corpus.ndjson")
     vlib.write_ndjson(cpath, corpus)
     modes = [("small", 2000 if not thorough else 400, {}), ("subst", 600 if not thorough else 150, {}),
-             ("mut", 8 if not thorough else 10, {"SWEEP_COUNT": 60000 if not thorough else 1500000})]
+             ("mut", 8 if not thorough else 10, {"SWEEP_COUNT": 60000 if not thorough else 1500000}),
+             ("bcd", 10 if not thorough else 25, {"SWEEP_COUNT": 40000 if not thorough else 1000000})]
     if thorough:
         modes.append(("alpha", 400, {"SWEEP_ALPHA_LEN": 5}))
     total_cases = 0
@@ -128,7 +129,7 @@ def run(chk):
                        "20 s watchdog): every body of length 0..2 over all bytes for all 55 packet types (APDU framed) and behind every known "
                        "control field for the 17 reply parsers; every truncation and every single-byte substitution of a corpus (captured blobs + "
                        "a typical reference-encoded value per type); seeded structure-aware mutations (length edits, tag splices, digit overflow, "
-                       "calendar values); in thorough also bodies of length 3..5 over each type's alphabet. distinct_nontrivial = distinct inputs "
+                       "calendar values); well-formed bodies whose BCD numbers sit at the edges of their integer type (maximum, maximum + 1, last digit / last two digits overflowing; plain, F-padded and zero-extended); in thorough also bodies of length 3..5 over each type's alphabet. distinct_nontrivial = distinct inputs "
                        "(evaluations / 2 builds). TLC validates every anomaly and a deterministic sample (traces_validated_against_impl) against "
                        "the reference decoder; disagreement on value / error kind is model drift, an outcome other than value-or-error or a "
                        "debug/release difference is the violation")
